@@ -8,7 +8,8 @@ A site is discharged only by one of the D-rules below.  External callees not in 
 assumed non-panicking (listed in the evidence).
 """
 import os, re
-from facts import op_local, op_place, op_const_int, pl_str, op_str
+from facts import op_local, op_place, op_const_int, pl_str, op_str, Call
+from analysis import TRANSPARENT_CALLS
 from analysis import (defuse, trace_operand, trace_local, trace_place, single_origin, Origin,
                       LOCK_CALLS, proj_key)
 from engine import ok, bad, assumed, VERIF
@@ -795,7 +796,88 @@ def d_bp(site):
     return None
 
 
-DISCHARGERS = [d_guard, d_total, d_lock, d_range, d_len_eq, d_bp, d_vetted, d_counter, d_balanced, d_index_succ, d_len_plus]
+def d_checked_index(site):
+    """v[i] / v.remove(i) / v.swap_remove(i) where i is the Ok payload of a local helper `H(.., n)` called with
+    n = v.len() of the same vector (not touched in between), and H can return Ok(x) only on the true edge of `x < n`"""
+    body = site.body
+    c = site.call
+    if c is None or len(c.args) < 2:
+        return None
+    cal = c.callee or ''
+    rd = c.rdef or ''
+    if not (cal in ('std::vec::Vec::<T, A>::remove', 'std::vec::Vec::<T, A>::swap_remove') or 'Vec<T, A> as std::ops::Index' in rd or 'impl std::ops::Index<I> for [T]' in rd):
+        return None
+    prog = getattr(body.facts, '_prog', None)
+    if prog is None:
+        return None
+    vo = single_origin(trace_operand(body, c.args[0]))
+    io = single_origin(trace_operand(body, c.args[1], through_calls=set(TRANSPARENT_CALLS)))
+    if vo is None or io is None or io.kind != 'callres' or io.proj != (('dc', 'Ok'), ('f', 0)) or io.data.ruid is None:
+        return None
+    hc = io.data
+    H = prog.by_id.get(hc.ruid)
+    if H is None or not body.dominates(hc.bb, site.bb):
+        return None
+    # which argument of the helper call is v.len()
+    for k, a in enumerate(hc.args):
+        lo = _is_len_of(body, single_origin(trace_operand(body, a)))
+        if lo is None or (lo.kind, lo.key()[1], lo.proj) != (vo.kind, vo.key()[1], vo.proj):
+            continue
+        # the vector is not changed between the len() read and the indexed access
+        lc = single_origin(trace_operand(body, a)).data
+        between = body.reachable_after(lc.bb) & ({site.bb} | {x for x in body.live_blocks if site.bb in body.reachable_after(x)})
+        touched = False
+        for cc in body.live_calls:
+            if cc.bb in between and cc.bb != site.bb and cc is not lc and cc.args:
+                ro = single_origin(trace_operand(body, cc.args[0]))
+                if ro is not None and (ro.kind, ro.key()[1], ro.proj) == (vo.kind, vo.key()[1], vo.proj) and (cc.term['arg_tys'] or [''])[0].startswith('&mut '):
+                    touched = True
+        if touched:
+            continue
+        # in H: every Ok(x) is edge-dominated by the true edge of x < n
+        n = k + 1
+        oks = [(bb, rv) for bb, i, pl, rv in H.assigns() if pl['l'] == 0 and not pl['p'] and rv['k'] == 'agg' and rv.get('variant') == 'Ok']
+        if not oks or any(Call(H, bb, H.blocks[bb]['term']).dest['l'] == 0 for bb in H.live_blocks
+                          if H.blocks[bb]['term']['k'] == 'call' and Call(H, bb, H.blocks[bb]['term']).callee != 'std::ops::FromResidual::from_residual'):
+            continue
+        good = True
+        for bb, rv in oks:
+            xo = single_origin(trace_operand(H, rv['ops'][0]))
+            found = False
+            for sb in sorted(H.live_blocks):
+                t = H.blocks[sb]['term']
+                if t['k'] != 'switch':
+                    continue
+                do = single_origin(trace_operand(H, t['discr']))
+                if do is None or do.kind != 'binop' or do.data[2]['op'] not in ('Lt', 'Gt', 'Ge', 'Le'):
+                    continue
+                ao = single_origin(trace_operand(H, do.data[2]['a']))
+                bo = single_origin(trace_operand(H, do.data[2]['b']))
+                op = do.data[2]['op']
+                def is_x(o):
+                    return o is not None and xo is not None and (o.kind, o.key()[1], o.proj) == (xo.kind, xo.key()[1], xo.proj)
+                def is_n(o):
+                    return o is not None and o.kind == 'param' and o.data == n and not o.proj
+                # edge on which x < n holds
+                want = None
+                if op == 'Lt' and is_x(ao) and is_n(bo): want = 1
+                if op == 'Gt' and is_n(ao) and is_x(bo): want = 1
+                if op == 'Ge' and is_x(ao) and is_n(bo): want = 0
+                if op == 'Le' and is_n(ao) and is_x(bo): want = 0
+                if want is None:
+                    continue
+                for v, tb in switch_edges(H, sb):
+                    truth = (1 if v != 0 else 0) if v != 'otherwise' else (1 if [x for x, _ in t['targets']] == [0] else 0)
+                    if truth == want and edge_dominates(H, sb, tb, bb):
+                        found = True
+            if not found:
+                good = False
+        if good:
+            return ('D-range', 'index = Ok payload of %s(.., len(v)), which returns Ok(x) only where x < its length parameter; the same un-mutated Vec' % H.name.split('::')[-1])
+    return None
+
+
+DISCHARGERS = [d_guard, d_total, d_lock, d_range, d_len_eq, d_bp, d_vetted, d_counter, d_balanced, d_index_succ, d_len_plus, d_checked_index]
 
 
 def evaluate(bodies, extra_dischargers=(), rule='PANIC'):
